@@ -16,9 +16,12 @@ def call(dn, G, op):
     if kind == "add":
         return G.add_interaction(op[1], op[2], op[3], op[4])
     if kind == "addfrom":
-        return G.add_interactions_from([tuple(x) for x in op[1]], op[2], op[3])
+        # a one-shot iterator: the ebunch may be consumed only once (add_path & co. pass zip objects)
+        return G.add_interactions_from((tuple(x) for x in op[1]), op[2], op[3])
     if kind in ("path", "star", "cycle"):
-        return getattr(G, "add_" + kind)(list(op[1]), op[2])
+        # "nodes: iterable container": lists and one-shot iterators alternate
+        ns = list(op[1])
+        return getattr(G, "add_" + kind)(iter(ns) if len(ns) % 2 else ns, op[2])
     if kind in ("dn.path", "dn.star", "dn.cycle"):
         f = getattr(dn, "add_" + kind[3:])
         if op[3] is None:
@@ -26,6 +29,10 @@ def call(dn, G, op):
         return f(G, list(op[1]), op[2], e=op[3])
     if kind == "node":
         return G.add_node(op[1], **op[2])
+    if kind == "clear":
+        return G.clear()
+    if kind == "clear_edges":
+        return G.clear_edges()
     raise ValueError(op)
 
 
@@ -44,6 +51,10 @@ def step(ctx, dn, G, m, op, oracle="add_interaction:outcome"):
     if op[0] == "node":
         call(dn, G, op)
         m.add_node(op[1], **op[2])
+        return True, False
+    if op[0] in ("clear", "clear_edges"):
+        call(dn, G, op)
+        m.clear(edges_only=op[0] == "clear_edges")
         return True, False
     if m.removal:
         m2 = m.copy()
@@ -98,6 +109,10 @@ def build_accepted(dn, prog, directed, removal=True):
         if op[0] == "node":
             call(dn, G, op)
             m.add_node(op[1], **op[2])
+            continue
+        if op[0] in ("clear", "clear_edges"):
+            call(dn, G, op)
+            m.clear(edges_only=op[0] == "clear_edges")
             continue
         m2 = m.copy()
         exp = gen.advance(m2, op)
